@@ -36,7 +36,10 @@ class H:
     # ---- lifetimes
     def life(self, wall_ms=None, tick_ms=1000, end="shutdown", **extra):
         n = len(self.plan["lifetimes"])
-        lf = {"wall_clock_ms": wall_ms if wall_ms is not None else BASE_WALL_MS + n * 1_000_000,
+        if wall_ms is None:
+            # never let the default clock run backwards across a restart
+            wall_ms = BASE_WALL_MS if n == 0 else self.wall_now() + 1_000_000
+        lf = {"wall_clock_ms": wall_ms,
               "tick_ms": tick_ms, "steps": [], "holds": [], "io_faults": [], "end": end}
         lf.update(extra)
         self.plan["lifetimes"].append(lf)
@@ -46,6 +49,19 @@ class H:
     @property
     def cur(self):
         return self.plan["lifetimes"][-1]
+
+    def wall_now(self):
+        """Wall clock (ms) after the last step of the current lifetime, as the node will compute it."""
+        lf = self.cur
+        w = lf["wall_clock_ms"]
+        for st in lf["steps"]:
+            w += lf.get("tick_ms", 0)
+            w += st.get("wall_advance_ms", 0)
+            if "wall_set_ms" in st:
+                w = st["wall_set_ms"]
+            if st.get("op") == "advance" and st.get("with_wall", True):
+                w += st.get("ms", 0)
+        return w
 
     def end(self, how):
         self.cur["end"] = how
@@ -150,11 +166,11 @@ class H:
     def done(self):
         return self.plan
 
-    def query(self, q, kind="query", conn=0, tag=None, fkey=None, **extra):
+    def query(self, q, kind="query", conn=0, tag=None, fkey=None, feat=None, **extra):
         """Generic read described by a query dict (see qmodel.query_text)."""
         from .qmodel import query_text
         self.read_arrivals += 1 if q.get("ctx") is not None else self.nshards
         if fkey is None:
             fq = {k: q.get(k) for k in ("type", "ctx", "since", "using", "where")}
             fkey = jdump(fq)
-        return self.cmd(query_text(q), {"kind": kind, "q": q, "tag": tag, "fkey": fkey}, conn, **extra)
+        return self.cmd(query_text(q), {"kind": kind, "q": q, "tag": tag, "fkey": fkey, "feat": feat}, conn, **extra)
